@@ -16,10 +16,16 @@ Record hobs := {
   h_calls : list rawcall;
   h_obs : list cobs;                       (* one per executed call; a rejection is the last entry *)
   h_final : list (nat * string * string);  (* per module: .name at the end of the history, name in the exported package *)
-  h_runs : list (nat * list pval);         (* body executions in order: generator, parameters as the body saw them *)
+  h_runs2 : list (nat * list pval);        (* body executions in order: generator, parameters as the body saw them
+                                              (level 2: the field values of the validated instance, numbers as written) *)
   h_exported : bool                        (* a design instantiating every returned module was exported *)
 }.
 Record gcase := { c_univ : list gen; c_table : list entry; c_hists : list hobs }.
+
+(* the observed body executions as cache keys *)
+Definition canon_run (r : nat * list pval) : key :=
+  match canon_all (snd r) with Ok vs => (fst r, vs) | Error _ => (fst r, [VStr "?not canonicalisable"]) end.
+Definition h_runs (h : hobs) : list key := map canon_run (h_runs2 h).
 
 (* ---------- generic helpers ---------- *)
 Fixpoint all_pairs {A} (p : A -> A -> bool) (l : list A) : bool :=
@@ -61,14 +67,15 @@ Definition spec_hist (U : list gen) (T : list entry) (h : hobs) : bool :=
   match accepted U h (h_calls h) (h_obs h) with
   | None => false
   | Some accs =>
+      let runs_h := h_runs h in
       (* equal parameters -> the identical module; modules coincide exactly when the creating calls do *)
       all_pairs (fun a b => implb (key_eqb (a_key a) (a_key b)) (Nat.eqb (a_mid a) (a_mid b))) accs &&
       all_pairs (fun a b => match origin_c U T (a_key a), origin_c U T (a_key b) with
                             | Some x, Some y => Bool.eqb (key_eqb x y) (Nat.eqb (a_mid a) (a_mid b))
                             | _, _ => true end) accs &&
       (* the body ran once per parameter value, and did run for every accepted call *)
-      all_pairs (fun a b => negb (key_eqb a b)) (h_runs h) &&
-      forallb (fun a => existsb (key_eqb (a_key a)) (h_runs h)) accs &&
+      all_pairs (fun a b => negb (key_eqb a b)) runs_h &&
+      forallb (fun a => existsb (key_eqb (a_key a)) runs_h) accs &&
       (* one module <-> one name, at return, at the end, and in the exported package *)
       forallb (fun a => String.eqb (a_ret a) (a_fin a)) accs &&
       all_pairs (fun a b => Bool.eqb (Nat.eqb (a_mid a) (a_mid b)) (String.eqb (a_fin a) (a_fin b))) accs &&
@@ -150,3 +157,36 @@ Definition chk_spec_only (c : gcase) : Z :=
   let U := c_univ c in let T := c_table c in
   if negb (table_ok U T) then 3 else
   if negb (forallb (spec_hist U T) (c_hists c) && spec_cross U (c_hists c)) then 1 else 0.
+
+(* ---------- model validation on single values (stream "values"): validation of a written value, == and hash of two
+   validated instances of a one-field paramclass.  2 = model and implementation differ. ---------- *)
+Inductive held := HRej | HVal (v : pval).
+Inductive obool := OTrue | OFalse | ORaise | OAbsent.
+Record vcase := { v_dtype : dtype; v_a : pval; v_b : pval; v_held_a : held; v_held_b : held; v_eq : obool; v_heq : obool }.
+
+Definition held_matches (d : dtype) (w : pval) (o : held) : bool :=
+  match validate d w, o with
+  | Ok x, HVal y => pval_eqb x y && valid d y
+  | Error _, HRej => true
+  | _, _ => false
+  end.
+
+Definition obool_matches (m : bool) (o : obool) : bool :=
+  match o with OTrue => m | OFalse => negb m | ORaise => true | OAbsent => false end.
+Definition obool_true (o : obool) : bool := match o with OTrue => true | _ => false end.
+
+Definition chk_value (c : vcase) : Z :=
+  if negb (held_matches (v_dtype c) (v_a c) (v_held_a c) && held_matches (v_dtype c) (v_b c) (v_held_b c)) then 2 else
+  match v_held_a c, v_held_b c with
+  | HVal x, HVal y =>
+      (* == exactly; hash: equal in the model -> equal on the implementation (CPython's hash has collisions, e.g. -1 / -2) *)
+      if negb (obool_matches (inst_eqb x y) (v_eq c)) then 2 else
+      if hash_eqb x y && negb (obool_true (v_heq c)) then 2 else
+      (* the two calls have one key exactly when the implementation's dict lookup would hit *)
+      match canon x, canon y, v_eq c with
+      | Ok kx, Ok ky, (OTrue | OFalse) => if Bool.eqb (pval_eqb kx ky) (obool_true (v_eq c) && obool_true (v_heq c)) then 0 else 2
+      | Ok _, Ok _, _ => 0
+      | _, _, _ => 2
+      end
+  | _, _ => 0
+  end.
